@@ -4,14 +4,22 @@
        exists d, into_data t x = Ok d /\ tc t d = Ok x
    where rt_cfg says that every dataclass' output form is enabled on input and no
    union member's serialised form is read by an earlier member.
-   Proved here: the statement on the kind-disjoint core fragment [rt_ty] (scalars,
-   None, homogeneous lists and variadic tuples, fixed tuples, at ANY nesting depth),
-   hence named _partial; and that the side condition on unions is necessary
-   (_refuted, witness replayed on pane by the check).  Dataclasses, mappings, sets,
-   enums, conditions and tagged unions are covered by the correspondence
-   (corr_convert, corr_into) and the monitor only. *)
+   Proved here: the statement on the fragment [rt_ty] -- scalars, None, scalar literals,
+   homogeneous lists and variadic tuples, fixed tuples, text-keyed mappings (Dict[str, T]),
+   conditions, and unions (Optional
+   included) whose members accept pairwise disjoint kinds of data ([pairwise_disjoint],
+   a computed check against the generated gate and scalar tables), at ANY nesting depth --
+   hence named _partial; and that the side condition on unions is necessary (_refuted,
+   witness replayed on pane by the check); and the statement for PLAIN DATACLASSES
+   ([plain_class]: mapping output, every field read and written under its own name, field
+   types in [rt_ty], defaults of their field's type), from either input layout, together with
+   what changes (the record of explicitly set fields becomes "all fields"); and the statement
+   at ANY NESTING of plain dataclasses and sets inside lists, tuples, text-keyed mappings, other
+   dataclasses and Optional ([rt2_ty]), up to that record ([same_val], what == compares).
+   Renamed or excluded fields, enums, tagged unions and unions of dataclasses are covered
+   by the correspondence (corr_convert, corr_into) and the monitor only. *)
 From Coq Require Import ZArith List String.
-Require Import Base.Outcome Model.Values Model.Vocab Model.Types Model.Conv Model.Into Lemmas.RoundTrip.
+Require Import Base.PyNum Base.Outcome Model.Values Model.Vocab Model.Types Model.Conv Model.Into Lemmas.RoundTrip Lemmas.ClassRoundTrip Lemmas.NestedRoundTrip.
 Import ListNotations.
 Open Scope string_scope.
 
@@ -44,3 +52,95 @@ Print Assumptions C05_overlapping_union_refuted.
 Example C05_fragment_example :
   rt_ty (TSeq SeqList (TTuple [TScalar SFloat; TSeq SeqTuple (TScalar SBool); TNone])).
 Proof. repeat constructor. Qed.
+(* Optional[List[Union[int, str, None]]] with a condition, and a literal *)
+Example C05_fragment_union_example :
+  rt_ty (TUnion [TSeq SeqList (TUnion [TCond (TScalar SInt) (CValRange (Some 0%Z) None); TScalar SStr; TNone]);
+                 TDict (TScalar SStr) (TTuple [TScalar SFloat; TScalar SBool]);
+                 TLiteral [VStr "auto"; VInt 3]; TNone]).
+Proof.
+  apply rt_union; [repeat constructor|vm_compute; reflexivity].
+Qed.
+(* ... while Union[int, float] is outside it: float reads ints *)
+Example C05_fragment_excludes_overlap : pairwise_disjoint [TScalar SInt; TScalar SFloat] = false.
+Proof. vm_compute. reflexivity. Qed.
+
+(* plain dataclasses, from the mapping or the sequence layout *)
+Theorem C05_plain_dataclass_roundtrip : forall h fs v x,
+  plain_class h fs -> tc (TClass h fs) v = Ok x ->
+  exists fields setf d,
+    x = VInst (c_name h) fields setf /\
+    into_data (TClass h fs) x = Ok d /\
+    tc (TClass h fs) d = Ok (VInst (c_name h) fields (map fst fields)).
+Proof. exact class_roundtrip. Qed.
+Print Assumptions C05_plain_dataclass_roundtrip.
+(* non-vacuity: class P: x: int; y: Optional[List[float]] = None; name: str = "p"  -- built from a sequence *)
+Definition ex_P_hdr : class_hdr := mkCls "P" [FStruct; FTuple] false false HNone.
+Definition ex_P_fields : list (fld * ty) :=
+  [(mkFld "x" ["x"] "x" true false false DNone, TScalar SInt);
+   (mkFld "y" ["y"] "y" true false false (DValue VNone), TUnion [TSeq SeqList (TScalar SFloat); TNone]);
+   (mkFld "name" ["name"] "name" true false false (DValue (VStr "p")), TScalar SStr)].
+Example C05_plain_class_example :
+  plain_class ex_P_hdr ex_P_fields /\
+  (tc (TClass ex_P_hdr ex_P_fields) (VList [VInt 3; VList [VInt 1]]) =
+    Ok (VInst "P" [("x", VInt 3); ("y", VList [VFloat (float_of_int_exact 1)]); ("name", VStr "p")] ["x"; "y"])).
+Proof.
+  split; [|vm_compute; reflexivity].
+  repeat split; try (vm_compute; reflexivity).
+  - repeat constructor; simpl; try (exists VNone; reflexivity); try (exists (VStr "p"); reflexivity).
+  - repeat constructor; simpl; intuition discriminate.
+Qed.
+
+(* the sequence form (out_format='tuple'), when no field is keyword-only *)
+Theorem C05_plain_dataclass_roundtrip_tuple_form : forall h fs v x,
+  plain_tuple_class h fs -> tc (TClass h fs) v = Ok x ->
+  exists fields setf d,
+    x = VInst (c_name h) fields setf /\
+    into_data (TClass h fs) x = Ok d /\
+    tc (TClass h fs) d = Ok (VInst (c_name h) fields (map fst fields)).
+Proof. exact class_roundtrip_tuple. Qed.
+Print Assumptions C05_plain_dataclass_roundtrip_tuple_form.
+(* ... and the condition is necessary: a keyword-only field is written at a position that reading
+   does not have (recorded finding roundtrip-rejected:tuple-out-with-kw-only-field) *)
+Definition ex_Q : ty :=
+  TClass (mkCls "Q" [FStruct; FTuple] true false HNone)
+    [(mkFld "a" ["a"] "a" true false false DNone, TScalar SInt);
+     (mkFld "b" ["b"] "b" true false true DNone, TScalar SInt)].
+Theorem C05_kw_only_tuple_output_refuted :
+  exists v x d, tc ex_Q v = Ok x /\ into_data ex_Q x = Ok d /\ tc ex_Q d = Reject.
+Proof.
+  exists (VDict [(VStr "a", VInt 1); (VStr "b", VInt 2)]), (VInst "Q" [("a", VInt 1); ("b", VInt 2)] ["a"; "b"]), (VTuple [VInt 1; VInt 2]).
+  repeat split; vm_compute; reflexivity.
+Qed.
+
+(* any nesting of plain dataclasses, lists, tuples, text-keyed mappings and Optional[dataclass]:
+   the re-read value equals the original up to the set-field records of the instances inside it *)
+Theorem C05_nested_roundtrip : forall t v x,
+  rt2_ty t -> tc t v = Ok x -> exists d x', into_data t x = Ok d /\ tc t d = Ok x' /\ same_val x' x.
+Proof. exact nested_roundtrip. Qed.
+Print Assumptions C05_nested_roundtrip.
+(* non-vacuity: Team(name: str, lead: Optional[P] = None, members: List[P], by_role: Dict[str, Tuple[P, int]], tags: Set[str]) *)
+Example C05_nested_example :
+  let P := TClass ex_P_hdr ex_P_fields in
+  rt2_ty (TClass (mkCls "Team" [FStruct; FTuple] false false HNone)
+     [(mkFld "name" ["name"] "name" true false false DNone, TScalar SStr);
+      (mkFld "lead" ["lead"] "lead" true false false (DValue VNone), TUnion [P; TNone]);
+      (mkFld "members" ["members"] "members" true false false DNone, TSeq SeqList P);
+      (mkFld "by_role" ["by_role"] "by_role" true false false DNone, TDict (TScalar SStr) (TTuple [P; TScalar SInt]));
+      (mkFld "tags" ["tags"] "tags" true false false DNone, TSeq SeqSet (TScalar SStr))]).
+Proof.
+  assert (RP : rt2_ty (TClass ex_P_hdr ex_P_fields)).
+  { apply r2_class.
+    - repeat constructor.
+    - repeat constructor; simpl; try (exists VNone; reflexivity); try (exists (VStr "p"); reflexivity).
+    - repeat constructor; simpl; intuition discriminate.
+    - left. split; reflexivity. }
+  apply r2_class.
+  - apply Forall_cons; [apply r2_base; constructor|].
+    apply Forall_cons; [apply r2_optional; exact RP|].
+    apply Forall_cons; [apply r2_list; exact RP|].
+    apply Forall_cons; [|apply Forall_cons; [apply r2_set; constructor|constructor]]. apply r2_dict. apply r2_tuple.
+    apply Forall_cons; [exact RP|]. apply Forall_cons; [apply r2_base; constructor|constructor].
+  - repeat constructor; simpl. exists VNone. reflexivity.
+  - repeat constructor; simpl; intuition discriminate.
+  - left. split; reflexivity.
+Qed.
